@@ -428,6 +428,9 @@ impl Family for ExprFam {
     fn label_states(arity: usize, kind: usize) -> u8 {
         states(menu(arity)[kind])
     }
+    fn same(a: &Expr, b: &Expr) -> bool {
+        a == b
+    }
     fn short(node: &Expr) -> String {
         format!("{node}")
     }
